@@ -165,7 +165,7 @@ def shard(p):
                 continue
             if got != want:
                 # classify
-                gl, wl = got.splitlines(), want.splitlines()
+                gl, wl = got.split("\n"), want.split("\n")
                 tag = "lines" if len(gl) != len(wl) else "text"
                 if tag == "text":
                     for a, b in zip(gl, wl):
